@@ -290,6 +290,23 @@ func c19Scenarios(tier string) []*Scenario {
 			mk([]int{i, j})
 		}
 	}
+	// the websocket log route: a client that reads gets the lines the runner holds, and the server goes on serving
+	for _, ws := range c18wsScenarios(tier) {
+		if !strings.HasPrefix(ws.ID, "c18-ws-all") && !strings.HasPrefix(ws.ID, "c18-ws-history") {
+			continue
+		}
+		ws := ws
+		inner := ws.Check
+		ws.ID = "c19-" + strings.TrimPrefix(ws.ID, "c18-")
+		ws.Check = func(w *World) []Violation {
+			var vs []Violation
+			for _, v := range inner(w) {
+				vs = append(vs, Violation{Prop: "C19", Sig: "ws:" + v.Sig, Msg: v.Msg})
+			}
+			return vs
+		}
+		scs = append(scs, ws)
+	}
 	return scs
 }
 
